@@ -30,7 +30,7 @@ EXPLANATION = (
     "index and by name, and 0..N-1 without a list; (7) carquet_column_read_batch, executed with the page "
     "reader hooked (pages of 3, 4, 2 values or a failing second page; requests 1..12; level arrays wanted or "
     "not; every fixed-width type), hands each page the three output positions advanced by what was already "
-    "delivered and returns the total. Decides these "
+    "delivered and returns the total. a comparison that decides what remains of a chunk never sets stored (compressed, header-carrying) byte counts against uncompressed byte counts (R36, members classified by a frozen table, locals by what they are built from). Decides these "
     "clauses, not that the dense-values offset is right for nullable pages.")
 
 PR = "src/reader/page_reader.c"
